@@ -313,20 +313,20 @@ Proof.
   destruct H as [th f um' r Hth Hst Hpl Hsp|th f k Hth Hst Hpl Hsp|th f i i' f' Hth Hst Hpl Hi Hsf|th f i i' r Hth Hst Hpl Hi Hsf];
     (split; [|exists th, f; split; [exact Hth|split; [exact Hst|]]]); unfold inv_ev; fold (maybe_inv (t_fresh th) t (f_call f)); cbn [c_hist].
   - eapply Set_; [exact Hth| | |unfold pend_of; rewrite hfold_inv_res by eauto; reflexivity].
-    + rewrite lookup_delete, cur_call_next_call. reflexivity.
-    + intros t' N. rewrite lookup_delete_ne by auto. reflexivity.
+    + cbn [fst]. rewrite lookup_delete, cur_call_next_call. reflexivity.
+    + intros t' N. cbn [fst]. rewrite lookup_delete_ne by auto. reflexivity.
   - right. exists r. split; [|reflexivity]. unfold completed at 1. rewrite hfold_inv_res by eauto. reflexivity.
   - eapply Set_; [exact Hth| | |unfold pend_of; rewrite hfold_inv_res by eauto; reflexivity].
-    + rewrite lookup_delete. reflexivity.
-    + intros t' N. rewrite lookup_delete_ne by auto. reflexivity.
+    + cbn [fst]. rewrite lookup_delete. reflexivity.
+    + intros t' N. cbn [fst]. rewrite lookup_delete_ne by auto. reflexivity.
   - right. exists (RPanic k). split; [|reflexivity]. unfold completed at 1. rewrite hfold_inv_res by eauto. reflexivity.
   - eapply Set_; [exact Hth| | |unfold pend_of; rewrite hfold_inv by eauto; reflexivity].
-    + rewrite lookup_insert. unfold cur_call. cbn.
+    + cbn [fst]. rewrite lookup_insert. unfold cur_call. cbn.
       f_equal. symmetry. eapply sf_call; eauto.
-    + intros t' N. rewrite lookup_insert_ne by auto. reflexivity.
+    + intros t' N. cbn [fst]. rewrite lookup_insert_ne by auto. reflexivity.
   - left. unfold completed at 1. rewrite hfold_inv by eauto. reflexivity.
   - eapply Set_; [exact Hth| | |unfold pend_of; rewrite hfold_inv_res by eauto; reflexivity].
-    + rewrite lookup_delete, cur_call_next_call. reflexivity.
-    + intros t' N. rewrite lookup_delete_ne by auto. reflexivity.
+    + cbn [fst]. rewrite lookup_delete, cur_call_next_call. reflexivity.
+    + intros t' N. cbn [fst]. rewrite lookup_delete_ne by auto. reflexivity.
   - right. eexists. split; [|reflexivity]. unfold completed at 1. rewrite hfold_inv_res by eauto. reflexivity.
 Qed.
